@@ -251,20 +251,6 @@ def run(tier):
         vlib.log(f"[p2] {cfg}: {nsteps} (state, op) steps on the real VariableSet validated against VarRef "
                  f"in {tv:.1f}s ({nrej} rejected, {len(rep.violations) - v0} not explained by a known finding)")
 
-    # ---- the model of `unset` as the code is written (informational) ------
-    r = vlib.tlc("VarSet", "MC_VarSet_ascoded.cfg", workers=4, timeout=600) if not DEV_CACHE else None
-    if r is None:
-        pass
-    elif r.violation and "RefinesVarRef" in r.violation:
-        notes.append("MC_VarSet_ascoded: with unset modelled as variable.rs writes it (stack[index..]) the model "
-                     "does NOT refine VarRef (TLC counterexample) -- design-level view of finding F5")
-        vlib.log("[f5] unset modelled as coded: TLC finds the refinement counterexample (expected while F5 is open)")
-    elif r.ok:
-        notes.append("MC_VarSet_ascoded passes: unexpected")
-        vlib.log("NOTE: MC_VarSet_ascoded unexpectedly passes")
-    else:
-        vlib.tlc_must_pass(r, "MC_VarSet_ascoded")
-
     # ---- P3: random long histories beyond the exhaustive bounds -----------
     trace = os.path.join(wd, "random.trace.ndjson")
     runs, steps = (20, 400) if tier == "quick" else (150, 1000)
